@@ -204,10 +204,54 @@ def h19_redis_bucket(S):
         S.check("bucket-kept-until-timestamp-plus-ttl", now >= ts + ttl - SEC, info="gone more than a second before timestamp + ttl")
 
 
+def h19_job_enqueue_gap(S):
+    """A job built first and enqueued later: its message is stamped with the job's creation time, the one Job.is_overdue counts from."""
+    from repid import Connection, InMemoryMessageBroker, Job
+    from engine.vtime import PinnedClock
+
+    created = S.int("created_at", Y1970 + 10**15, Y2100 - 10**15)
+    gap = S.int("enqueued_after", 0, 366 * 86400 * SEC)
+    has_ttl = S.flag("has_ttl")
+    ttl = S.int("ttl", SEC, 10 * 366 * 86400 * SEC)
+    periodic = S.flag("periodic")
+    period = S.int("period", SEC, 366 * 86400 * SEC)
+    clock = PinnedClock(created)
+    out = {}
+
+    async def main(loop):
+        conn = Connection(InMemoryMessageBroker())
+        await conn.connect()
+        job = Job("job", ttl=S.timedelta_us(ttl) if has_ttl else None, deferred_by=S.timedelta_us(period) if periodic else None, _connection=conn)
+        await job.queue.declare()
+        clock.set(created + gap)
+        out["sent"] = await job.enqueue()
+        out["job_overdue"] = job.is_overdue
+        out["msg_overdue"] = out["sent"][2].is_overdue
+
+    run_async(main, clock=clock)
+    params = out["sent"][2]
+    S.cover("enqueued-later")
+    S.check("message-timestamp-is-the-jobs-creation-time", vtime.dt_us(params.timestamp) == created)
+    S.check("job-and-message-agree-on-expiry", out["job_overdue"] == out["msg_overdue"])
+    if periodic:
+        first = params.compute_next_execution_time
+        S.check("first-slot-whole-periods-after-creation", (vtime.dt_us(first) - created) % period == 0)
+
+
 # the same arithmetic as used by the reschedule path (time base and clock are chosen by _prepare_reschedule)
 from harness.c06 import h06_step  # noqa: E402
 
+from harness.c05 import h05_rabbit  # noqa: E402
+
 HARNESSES += [
+    Harness(name="H19g-job-enqueue-gap", scenario=h19_job_enqueue_gap, workers=4,
+            bounds={"creation instant": "any µs", "enqueue": "0 .. 1 year later", "ttl": "absent or [1 s, 10 y]", "period": "absent or [1 s, 1 y]"},
+            functions=["job.py:Job._construct_parameters", "job.py:Job.is_overdue", "data/_parameters.py:Parameters.compute_next_execution_time"],
+            covers=["enqueued-later"]),
+    Harness(name="H19f-rabbit-expiration", scenario=h05_rabbit, params={"quick": {"via": "enqueue"}, "thorough": {"via": "enqueue"}},
+            bounds={"due time, publish instant": "any microsecond in 2000..2100: the per-message expiration is the whole distance to the due time (days included)"},
+            functions=["connections/rabbitmq/message_broker.py:RabbitMessageBroker.enqueue"], covers=["published-delayed"],
+            stubs=["fake AMQP channel records the publish"]),
     Harness(name="H19e-redis-bucket-expiry", scenario=h19_redis_bucket, workers=4,
             bounds={"timestamp": "any µs", "ttl": "[1 s, 10 y]", "stored": "any time while alive (up to a year after the timestamp)", "read": "up to 12 years later",
                     "tolerance": "one second (Redis expiry is in whole seconds)"},
